@@ -10562,6 +10562,9 @@ func (l *Lowerer) resolveParameterizedType(t *parser.NamedType) (ir.TypeHandle, 
 	// registering the scalar here, and running compactTypes() after lowering.
 	if len(t.Name) == 4 && t.Name[:3] == "vec" {
 		size := t.Name[3] - '0'
+		if len(t.TypeParams) == 0 {
+			return 0, fmt.Errorf("%s requires a component type", t.Name)
+		}
 		scalarType, err := l.resolveType(t.TypeParams[0])
 		if err != nil {
 			return 0, err
@@ -10571,7 +10574,10 @@ func (l *Lowerer) resolveParameterizedType(t *parser.NamedType) (ir.TypeHandle, 
 		if !ok {
 			return 0, fmt.Errorf("scalar type handle %d not found in registry", scalarType)
 		}
-		scalar := typ.Inner.(ir.ScalarType)
+		scalar, ok := typ.Inner.(ir.ScalarType)
+		if !ok {
+			return 0, fmt.Errorf("%s component type must be a scalar", t.Name)
+		}
 		return l.registerType("", ir.VectorType{
 			Size:   ir.VectorSize(size),
 			Scalar: scalar,
@@ -10581,8 +10587,14 @@ func (l *Lowerer) resolveParameterizedType(t *parser.NamedType) (ir.TypeHandle, 
 	// Matrix types: mat2x2<f32>, mat4x4<f32>
 	if len(t.Name) >= 3 && t.Name[:3] == "mat" {
 		// Simple parsing: mat4x4 -> 4 columns, 4 rows
+		if len(t.Name) != 6 || t.Name[4] != 'x' || t.Name[3] < '2' || t.Name[3] > '4' || t.Name[5] < '2' || t.Name[5] > '4' {
+			return 0, fmt.Errorf("unknown type: %s", t.Name)
+		}
 		cols := t.Name[3] - '0'
 		rows := t.Name[5] - '0'
+		if len(t.TypeParams) == 0 {
+			return 0, fmt.Errorf("%s requires a component type", t.Name)
+		}
 		scalarType, err := l.resolveType(t.TypeParams[0])
 		if err != nil {
 			return 0, err
@@ -10592,7 +10604,10 @@ func (l *Lowerer) resolveParameterizedType(t *parser.NamedType) (ir.TypeHandle, 
 		if !ok {
 			return 0, fmt.Errorf("scalar type handle %d not found in registry", scalarType)
 		}
-		scalar := typ.Inner.(ir.ScalarType)
+		scalar, ok := typ.Inner.(ir.ScalarType)
+		if !ok {
+			return 0, fmt.Errorf("%s component type must be a scalar", t.Name)
+		}
 		return l.registerType("", ir.MatrixType{
 			Columns: ir.VectorSize(cols),
 			Rows:    ir.VectorSize(rows),
